@@ -1406,6 +1406,7 @@ func main() {
 			}()
 			t.genProjString(&g)
 			t.genDeriveConstants(&g)
+			t.genHandPins(&g)
 		}()
 		g.WriteString("end GeomV.C09.Gen.Go\n")
 		writeIfChanged(filepath.Join(*out, "GoParse.lean"), g.String())
